@@ -2,12 +2,13 @@
 
 from __future__ import annotations
 
+import ast
 import itertools
 
 from sa.canon import canon
 from sa.peval import peval
 from sa.report import Ctx
-from sa.sym import FALSE, NONE, Summary, bind_args, conjuncts, show, subst, walk
+from sa.sym import FALSE, NONE, TRUE, Summary, bind_args, conjuncts, show, subst, walk
 
 OPS = "soundevent.geometry.operations"
 
@@ -238,9 +239,22 @@ class C12:
         placements = [(sv, ev) for ev in (10.5, 11.0, 11.5, 25.0) for sv in (5.0, 18.5, 19.0, 19.5) if sv <= ev]
         # zero-duration geometries (time stamps, points, vertical lines) around and on both thresholds
         placements += [(t, t) for t in (5.0, 10.5, 11.0, 11.5, 15.0, 18.5, 19.0, 19.5, 25.0)]
+        # derived attributes of the clip (properties such as `duration`) take the value their definition gives on this clip
+        derived = {}
+        try:
+            Clip = ctx.index.need_class("soundevent.data.clips", "Clip")
+            for mn, fns in Clip.methods.items():
+                if any(ast.unparse(d) == "property" for d in fns[-1].decorator_list):
+                    ps = ctx.summ.of_func(Clip.module.name, f"Clip.{mn}")
+                    if len(ps.returns) == 1 and ps.returns[0].live == TRUE:
+                        v = peval(ps.returns[0].term, {("attr", ("param", ps.params[0]), "start_time"): cs, ("attr", ("param", ps.params[0]), "end_time"): ce})
+                        if v[0] == "const":
+                            derived[("attr", clip, mn)] = v[1]
+        except Exception:  # noqa: BLE001
+            pass
         for startv, endv in placements:
             if True:
-                env = {m: mv, ("attr", clip, "start_time"): cs, ("attr", clip, "end_time"): ce, st: startv, en: endv}
+                env = {**derived, m: mv, ("attr", clip, "start_time"): cs, ("attr", clip, "end_time"): ce, st: startv, en: endv}
                 outs = []
                 for r in s.returns:
                     lv = peval(r.live, env)
@@ -274,4 +288,8 @@ def run(ctx: Ctx):
     c.check_intervals_overlap()
     c.check_delegations()
     c.check_is_in_clip()
+    # the extents compared are compute_bounds of the geometries: the bounds of the converted shape of the coordinates as given
+    from . import c03, c05
+    c05.run_conversion_subset(ctx)
+    c03.run_validation_subset(ctx)
     return EXPLANATION, ASSUMPTIONS
